@@ -12,7 +12,10 @@
 (*   zones      UTC, fixed offsets (Etc/GMT+-h, Asia/Kolkata), and three rule      *)
 (*              zones written out here, each with its validity interval:           *)
 (*              America/New_York from 2007, Europe/Berlin from 1996,               *)
-(*              Australia/Sydney from 2008 (DST spans the new year)                *)
+(*              Australia/Sydney from 2008 (DST spans the new year); and, in        *)
+(*              general, a zone given as a TRANSITION TABLE - the sorted instants   *)
+(*              with the UTC offset and abbreviation in force from each (kind       *)
+(*              "table", data handed to TLC: TimeTab.tla) - offset(t) is a lookup   *)
 (*   Format     every named layout of timeformat (ANSIC ... RFC3339N, NGINX,       *)
 (*              MONTH ... WDAY), the bucket layouts of buckettime and a few custom *)
 (*              layouts, as a sequence of field tokens and literals                *)
@@ -125,8 +128,21 @@ Zone(z) ==
     [] OTHER                    -> [kind |-> "unknown"]
 ZoneNames == {"UTC", "utc", "Etc/GMT+5", "Etc/GMT+12", "Etc/GMT-3", "Etc/GMT-14", "Asia/Kolkata",
               "America/New_York", "Europe/Berlin", "Australia/Sydney"}
-Modelled(zd) == zd.kind \in {"fixed", "ny", "berlin", "sydney"}
+Modelled(zd) == zd.kind \in {"fixed", "ny", "berlin", "sydney", "table"}
 InZoneDomain(zd, t) == Modelled(zd) /\ InRange(t) /\ t.d >= zd.from
+
+\* ---------------------------------------------------------------- zones given as a transition table
+\* tab: a non-empty sequence of [d, s, off, abbr], strictly increasing in (d, s): from the instant (d, s) on - the
+\* first entry: from the beginning of time - the zone is off seconds east of UTC and is called abbr
+\* (a sequence of bytes).  The offset in force at t is the one of the last entry not after t.
+RECURSIVE TabFind(_, _, _, _)
+TabFind(tab, t, lo, hi) ==            \* the answer is in lo..hi
+  IF lo >= hi THEN lo
+  ELSE LET mid == (lo + hi + 1) \div 2 IN
+       IF Before(t, tab[mid]) THEN TabFind(tab, t, lo, mid - 1) ELSE TabFind(tab, t, mid, hi)
+TabIdx(tab, t) == TabFind(tab, t, 1, Len(tab))
+TabSorted(tab) == Len(tab) >= 1 /\ \A i \in 1..(Len(tab) - 1) : Before(tab[i], tab[i + 1])
+TableZone(tab) == [kind |-> "table", tab |-> tab, offs |-> {tab[i].off : i \in 1..Len(tab)}, from |-> MinDay]
 
 \* the two rule instants of UTC year y: [on |-> DST begins, off |-> DST ends]
 Transitions(kind, y) ==
@@ -141,16 +157,20 @@ DstActive(zd, t) ==
   ELSE LET tr == Transitions(zd.kind, Civil(t.d).y) IN
        IF Before(tr.on, tr.off) THEN AtOrAfter(t, tr.on) /\ Before(t, tr.off)      \* northern
        ELSE Before(t, tr.off) \/ AtOrAfter(t, tr.on)                               \* southern
-Offset(zd, t) == IF DstActive(zd, t) THEN zd.dst ELSE zd.std
+Offset(zd, t) == IF zd.kind = "table" THEN zd.tab[TabIdx(zd.tab, t)].off
+                 ELSE IF DstActive(zd, t) THEN zd.dst ELSE zd.std
+
+\* calendar fields of an instant that is off seconds east of UTC: the civil date of the shifted day number
+LocalAt(t, off, abbr) ==
+  LET l   == Plus(t, off)
+      c   == Civil(l.d)
+  IN [y |-> c.y, m |-> c.m, d |-> c.d, hh |-> l.s \div 3600, mi |-> (l.s % 3600) \div 60, ss |-> l.s % 60,
+      wd |-> Weekday(l.d), ld |-> l.d, off |-> off, abbr |-> abbr]
 
 \* calendar fields of the instant t in the zone zd
 Local(zd, t) ==
-  LET dst == DstActive(zd, t)
-      off == IF dst THEN zd.dst ELSE zd.std
-      l   == Plus(t, off)
-      c   == Civil(l.d)
-  IN [y |-> c.y, m |-> c.m, d |-> c.d, hh |-> l.s \div 3600, mi |-> (l.s % 3600) \div 60, ss |-> l.s % 60,
-      wd |-> Weekday(l.d), ld |-> l.d, off |-> off, abbr |-> IF dst THEN zd.dabbr ELSE zd.sabbr]
+  IF zd.kind = "table" THEN LET e == zd.tab[TabIdx(zd.tab, t)] IN LocalAt(t, e.off, e.abbr)
+  ELSE LET dst == DstActive(zd, t) IN LocalAt(t, IF dst THEN zd.dst ELSE zd.std, IF dst THEN zd.dabbr ELSE zd.sabbr)
 
 \* ================================================================ layouts
 MonthName == <<
@@ -231,6 +251,14 @@ BucketLayout(kind) ==
     [] kind = "months"  -> <<F("2006"), dash, F("01")>>
     [] kind = "years"   -> <<F("2006")>>
 
+\* the start of the bucket that holds a reading l: the calendar fields of the reading itself, the finer ones cleared -
+\* in the zone's own wall clock, whatever the zone does there (the first second of a day need not exist in a zone)
+BucketDepth(kind) == CASE kind \in {"nanos", "seconds"} -> 6 [] kind = "minutes" -> 5 [] kind = "hours" -> 4
+                       [] kind = "days" -> 3 [] kind = "months" -> 2 [] kind = "years" -> 1
+BucketStart(kind, l) ==
+  LET n == BucketDepth(kind) IN
+  [l EXCEPT !.m = IF n >= 2 THEN l.m ELSE 1, !.d = IF n >= 3 THEN l.d ELSE 1, !.hh = IF n >= 4 THEN l.hh ELSE 0,
+            !.mi = IF n >= 5 THEN l.mi ELSE 0, !.ss = IF n >= 6 THEN l.ss ELSE 0]
 HasTok(lay, K) == \E i \in 1..Len(lay) : lay[i].f \in K
 HasDate(lay)   == HasTok(lay, {"2006", "06"}) /\ HasTok(lay, {"01", "Jan", "January"}) /\ HasTok(lay, {"02", "_2"})
 HasTime(lay)   == HasTok(lay, {"15"}) /\ HasTok(lay, {"04"})
@@ -278,6 +306,9 @@ AttrText(a, l) ==
     [] a = "week"     -> Itoa(IsoWeek(l.ld).w)
     [] a = "yearweek" -> LET w == IsoWeek(l.ld) IN Itoa(w.y) \o <<45>> \o Itoa(w.w)
     [] a = "quarter"  -> Itoa(Quarter(l.m))
+
+\* buckettime: the bucket start printed with the bucket's layout
+BucketText(kind, l) == Format(BucketLayout(kind), BucketStart(kind, l))
 
 \* ================================================================ ParseM (strict inverse of Format)
 PBad == [ok |-> FALSE, pos |-> 0, y |-> 0, m |-> 0, d |-> 0, hh |-> 0, mi |-> 0, ss |-> 0, off |-> 0, hasoff |-> FALSE]
@@ -334,6 +365,11 @@ Resolve(r, zd) ==
   LET day  == DaysFromCivil(r.y, r.m, r.d)
       secs == r.hh * 3600 + r.mi * 60 + r.ss
   IN IF r.hasoff THEN [k |-> "one", t |-> Norm(day, secs - r.off)]
+     ELSE IF zd.kind = "table" THEN       \* the readings: one per offset of the table that is in force at wall - offset
+          LET C == {o \in zd.offs : Offset(zd, Norm(day, secs - o)) = o} IN
+          IF C = {} THEN [k |-> "none", t |-> Norm(day, secs)]
+          ELSE IF Cardinality(C) = 1 THEN [k |-> "one", t |-> Norm(day, secs - (CHOOSE o \in C : TRUE))]
+          ELSE [k |-> "two", t |-> Norm(day, secs - (CHOOSE o \in C : \A p \in C : p <= o))]
      ELSE IF zd.kind = "fixed" THEN [k |-> "one", t |-> Norm(day, secs - zd.std)]
      ELSE LET c1 == Norm(day, secs - zd.std)  c2 == Norm(day, secs - zd.dst)
               v1 == c1.d >= zd.from /\ Offset(zd, c1) = zd.std
@@ -463,7 +499,7 @@ ExpBucketAs(kind, fmt, x, zd) ==
   LET r == ParseM(Layout(fmt), x) IN
   IF ~r.ok THEN (IF FractionLike(x) THEN AnyV ELSE Val(mPARSE))
   ELSE LET q == Resolve(r, zd) IN
-       IF q.k \in {"one", "two"} /\ r.y >= 1969 /\ r.y <= 2101 THEN Val(Format(BucketLayout(kind), r)) ELSE AnyV
+       IF q.k \in {"one", "two"} /\ r.y >= 1969 /\ r.y <= 2101 THEN Val(BucketText(kind, r)) ELSE AnyV
 
 Detecting(c) == c.f \in {"time", "buckettime"} /\ (~HasFmt(c) \/ c.fmt \in {"auto", "cache", ""})
 
@@ -505,7 +541,7 @@ ExpBucketRT(c, zd) ==
        ELSE LET l  == Local(zd, i.t)
                 ls == l.hh * 3600 + l.mi * 60 + l.ss
                 tr == TruncSecs(lay, ls)               \* what the intermediate text dropped
-            IN Val(Format(BucketLayout(kind), [l EXCEPT !.hh = tr \div 3600, !.mi = (tr % 3600) \div 60, !.ss = tr % 60]))
+            IN Val(BucketText(kind, [l EXCEPT !.hh = tr \div 3600, !.mi = (tr % 3600) \div 60, !.ss = tr % 60]))
 
 ExpDuration(c) ==
   LET r == DurParse(c.x) IN
@@ -519,24 +555,28 @@ ExpDurRT(c) ==         \* seconds -> text -> seconds
 ExpFmtDur(c) ==        \* text -> seconds -> canonical text
   LET r == DurParse(c.x) IN IF r.k = "ok" THEN Val(DurText(r.v)) ELSE AnyV
 
-Expect(c) ==
-  IF c.f \in {"duration", "durationformat", "durrt", "fmtdur"} THEN
-     CASE c.f = "duration" -> ExpDuration(c)
-       [] c.f = "durationformat" -> ExpDurFormat(c)
-       [] c.f = "durrt" -> ExpDurRT(c)
-       [] c.f = "fmtdur" -> ExpFmtDur(c)
-  ELSE LET zd == Zone(EffZone(c)) IN
-       IF zd.kind = "bogus" THEN    \* an unknown zone is a compile error (when nothing else is wrong with the call)
-          (IF c.f \in {"timeformat", "time"} \/ (c.f = "timeattr" /\ c.b \in AttrNames) \/ (c.f = "buckettime" /\ BucketKind(c.b) # "none")
-           THEN CErr(mPARSE) ELSE AnyV)
-       ELSE IF ~Modelled(zd) THEN AnyV
-       ELSE CASE c.f = "timeformat" -> ExpFormat(c, zd)
-              [] c.f = "timeattr"   -> ExpAttr(c, zd)
-              [] c.f = "time"       -> ExpTime(c, zd)
-              [] c.f = "buckettime" -> ExpBucket(c, zd)
-              [] c.f = "rt"         -> ExpRoundTrip(c, zd)
-              [] c.f = "bucketrt"   -> ExpBucketRT(c, zd)
-              [] OTHER -> AnyV
+\* what a call of a time helper must return when its zone argument denotes zd
+ExpectIn(c, zd) ==
+  IF zd.kind = "bogus" THEN    \* an unknown zone is a compile error (when nothing else is wrong with the call)
+     (IF c.f \in {"timeformat", "time"} \/ (c.f = "timeattr" /\ c.b \in AttrNames) \/ (c.f = "buckettime" /\ BucketKind(c.b) # "none")
+      THEN CErr(mPARSE) ELSE AnyV)
+  ELSE IF ~Modelled(zd) THEN AnyV
+  ELSE CASE c.f = "timeformat" -> ExpFormat(c, zd)
+         [] c.f = "timeattr"   -> ExpAttr(c, zd)
+         [] c.f = "time"       -> ExpTime(c, zd)
+         [] c.f = "buckettime" -> ExpBucket(c, zd)
+         [] c.f = "rt"         -> ExpRoundTrip(c, zd)
+         [] c.f = "bucketrt"   -> ExpBucketRT(c, zd)
+         [] OTHER -> AnyV
+
+DurationFuncs == {"duration", "durationformat", "durrt", "fmtdur"}
+ExpectDur(c) ==
+  CASE c.f = "duration" -> ExpDuration(c)
+    [] c.f = "durationformat" -> ExpDurFormat(c)
+    [] c.f = "durrt" -> ExpDurRT(c)
+    [] c.f = "fmtdur" -> ExpFmtDur(c)
+
+Expect(c) == IF c.f \in DurationFuncs THEN ExpectDur(c) ELSE ExpectIn(c, Zone(EffZone(c)))
 
 \* does the observation (got, cerr) satisfy the expectation?
 Matches(e, got, cerr) == e.k = "any" \/ (got = e.v /\ cerr = e.ce)
